@@ -59,8 +59,27 @@ func classifyReturn(fset *token.FileSet, e ast.Expr) string {
 		if sel, ok := call.Fun.(*ast.SelectorExpr); ok && exprString(fset, sel.X) == "ego.Ego()" {
 			return "(RChain (B" + coqStr(sel.Sel.Name) + "))"
 		}
+		// ego.helper(args): a method of the same receiver type; inside it `ego` is the same innermost value, so what it returns is
+		// decided by ITS return statements (the method table contains the unexported methods too)
+		if sel, ok := call.Fun.(*ast.SelectorExpr); ok && exprString(fset, sel.X) == "ego" {
+			return "(RChain (B" + coqStr(sel.Sel.Name) + "))"
+		}
+		// a constructor call or a conversion of a fresh copy: a new container
+		fn := exprString(fset, call.Fun)
+		switch fn {
+		case "NewList", "NewObject", "NewListOf", "NewListFrom", "NewObjectFrom":
+			return "ROther"
+		}
+		return "RUnknown" // some other call: the translator cannot tell what it returns
 	}
-	return "ROther"
+	switch x := e.(type) {
+	case *ast.Ident: // a local (result, obj, list ...), nil
+		_ = x
+		return "ROther"
+	case *ast.BasicLit, *ast.CompositeLit, *ast.UnaryExpr, *ast.BinaryExpr, *ast.TypeAssertExpr, *ast.IndexExpr, *ast.SelectorExpr:
+		return "ROther"
+	}
+	return "RUnknown"
 }
 
 func runAstx(repo, outDir string) error {
@@ -260,7 +279,7 @@ func runAstx(repo, outDir string) error {
 	}
 	sort.Strings(keys)
 	for _, k := range keys {
-		fmt.Fprintf(&b, "Definition gen_%s : skel := %s.\n", k, asyncSkels[k])
+		fmt.Fprintf(&b, "Definition gen_%s : option skel := %s.\n", k, asyncSkels[k])
 	}
 	if err := os.WriteFile(filepath.Join(outDir, "GenAsync.v"), []byte(b.String()), 0o644); err != nil {
 		return err
@@ -268,7 +287,27 @@ func runAstx(repo, outDir string) error {
 	// (c) parseVal case table
 	b.Reset()
 	b.WriteString("(* GENERATED by `harness astx` from /repo on every run. Do not edit. *)\nFrom Anytype Require Import Base.\n\n")
-	fmt.Fprintf(&b, "Definition gen_parseval_cases : list (bytes * bytes) := [\n  %s\n].\n", strings.Join(parseValCases, ";\n  "))
+	// every case body must be one of the actions the model knows (the stored value as it is, one of the two conversions, one of the
+	// scalar wrappers with or without a numeric conversion, newNil, panic); a switch that delegates to helpers or is spread over
+	// several functions is not read: None (the type-switch theorem then does not speak about this tree, the differential runs do)
+	recognised := len(parseValCases) > 0
+	for _, c := range parseValCases {
+		ok := false
+		for _, a := range []string{"return v\")", "return NewObjectFrom(v)\")", "return NewListFrom(v)\")", "return newString(v)\")", "return newBool(v)\")", "return newInt(v)\")",
+			"return newInt(int(v))\")", "return newFloat(v)\")", "return newFloat(float64(v))\")", "return newNil()\")", "B\"panic\")"} {
+			if strings.HasSuffix(c, a) {
+				ok = true
+			}
+		}
+		if !ok {
+			recognised = false
+		}
+	}
+	if recognised {
+		fmt.Fprintf(&b, "Definition gen_parseval_cases : option (list (bytes * bytes)) := Some [\n  %s\n].\n", strings.Join(parseValCases, ";\n  "))
+	} else {
+		b.WriteString("Definition gen_parseval_cases : option (list (bytes * bytes)) := None.\n")
+	}
 	if err := os.WriteFile(filepath.Join(outDir, "GenParseVal.v"), []byte(b.String()), 0o644); err != nil {
 		return err
 	}
@@ -956,5 +995,10 @@ func asyncSkeleton(fset *token.FileSet, decl *ast.FuncDecl) string {
 		}
 		merged = append(merged, workI[i])
 	}
-	return fmt.Sprintf("mkSkel [%s] [%s]", strings.Join(mainI, "; "), strings.Join(merged, "; "))
+	if len(wgNames) == 0 {
+		// no sync.WaitGroup anywhere in the method: the synchronisation has another shape (channels, futures, a helper type) that
+		// this translator does not read; the skeleton theorems then do not speak about this method, the dynamic runs still do
+		return "None"
+	}
+	return fmt.Sprintf("(Some (mkSkel [%s] [%s]))", strings.Join(mainI, "; "), strings.Join(merged, "; "))
 }
